@@ -113,6 +113,8 @@ def _replay_subprocess(path):
 
 def run_property(prop, tier, seed, only=None, jobs=None, budget_scale=1.0):
     t0 = time.time()
+    import shutil
+    shutil.rmtree(os.path.join(REPLAY_DIR, prop), ignore_errors=True)
     obligations = [ob for ob in load_obligations(prop) if tier in ob.tiers]
     if only:
         obligations = [ob for ob in obligations if any(o in ob.name for o in only)]
@@ -167,6 +169,7 @@ def run_property(prop, tier, seed, only=None, jobs=None, budget_scale=1.0):
             "solver_checks": sum(r["solver_checks"] for r in rs),
             "solver_s": round(sum(r["solver_s"] for r in rs), 3),
             "wall_s_sum": round(sum(r["wall_s"] for r in rs), 3),
+            "slowest_jobs": sorted(((r["wall_s"], r["fixed"]) for r in rs), key=lambda t: -t[0])[:3],
             "covers": {},
         }
         unknown_reasons = {}
